@@ -80,7 +80,9 @@ Definition draw_to_term (ls : list line) (n : N) (al : alignment) (below : bool)
       let '(po, re, pf) := paint_pad ls 0 (N.of_nat (length ls)) W H 0 shift0 padded0 in
       ((if padded0 then repeat (TLine []) (N.to_nat shift0) else []) ++ po, re,
        if pf then shift0 else 0) in
-  let below' := if negb (shift =? 0) || negb (match ls with [] => true | _ => false end) then false
+  (* after fix 'an empty frame with bottom alignment leaves the cursor below the padded region':
+     only a draw WITH lines leaves the cursor on the last row of the region *)
+  let below' := if negb (match ls with [] => true | _ => false end) then false
                 else if negb (n =? 0) then true else below in
   ((if below && (0 <? n) then [TUp 1] else [])
      ++ clear_ops n ++ pops ++ [TFlush],
